@@ -30,7 +30,7 @@ ASSUMPTIONS = ["intersection documents use unique-id leaves (membership of boole
 
 def plan(tier, seed):
     n = 14 if tier == "quick" else 46
-    return [{"kind": "scale"}] + [{"n": 450 if tier == "quick" else 5000} for _ in range(n)]
+    return [{"kind": "scale"}, {"kind": "threads", "rounds": 6 if tier == "quick" else 40}] + [{"n": 450 if tier == "quick" else 5000} for _ in range(n)]
 
 
 def recs(ms):
@@ -65,11 +65,65 @@ def run_scale(ctx):
         ctx.cell("scale", "right-hand values=%d" % n)
 
 
+def run_threads(ctx, rounds):
+    """The text-taking entry points (compile + evaluate in one call) from 8 threads at once on the default environment,
+    each (query, document) against what the same call gives alone (yields injected in the lexer, parser, selectors)."""
+    import jsonpath
+
+    from rt.threads import stress
+
+    r = ctx.rng
+    for _round in range(rounds):
+        cases = []
+        for _ in range(10):
+            doc = gen.gen_doc(r, profile="unique", hostile=0.2, max_depth=3, fan=3)
+            names = gen.doc_names(doc)[:6] or ["a"]
+            fg = gen.FilterGen(r, names[:4], max_depth=2)
+            asts = [gen.gen_std_query(r, doc, max_segs=3) if r.random() < 0.5 else ["q", "$", [[r.choice(["child", "desc"]), [["filter", fg.logical()]]]]] for _ in range(r.randint(1, 3))]
+            comp = [asts[0]] + [[r.choice("|&"), q] for q in asts[1:]]
+            text = Renderer(r, blanks=0.1).compound(comp)
+            alone = impl.call(lambda: [canon(v) for v in jsonpath.findall(text, doc)])
+            if alone.ok:
+                cases.append((text, doc, alone.value))
+        errors = []
+
+        def worker(wid, rr):
+            for text, doc, want in rr.sample(cases, len(cases)):
+                ep = rr.choice(["findall", "finditer", "query", "match"])
+                try:
+                    if ep == "findall":
+                        got = [canon(v) for v in jsonpath.findall(text, doc)]
+                    elif ep == "finditer":
+                        got = [canon(m.obj) for m in jsonpath.finditer(text, doc)]
+                    elif ep == "query":
+                        got = [canon(v) for v in jsonpath.query(text, doc).values()]
+                    else:
+                        m = jsonpath.match(text, doc)
+                        got, want = ([canon(m.obj)] if m is not None else []), want[:1]
+                except Exception as e:  # noqa: BLE001
+                    got = "%s: %s" % (type(e).__name__, e)
+                if got != want:
+                    errors.append({"text": text, "entry_point": ep, "thread": wid, "got": repr(got)[:300], "alone": repr(want)[:300]})
+
+        st = stress(worker, nthreads=8, files=("lex.py", "parse.py", "selectors.py", "path.py", "filter.py", "env.py"), seed=r.random(), prob=0.01)
+        ctx.evaluation(len(cases) * 8)
+        ctx.count("concurrent_entry_point_calls", len(cases) * 8)
+        ctx.count("yields_injected", st["yields"])
+        ctx.cell("thread_interleaving_signatures", st["signature"])
+        for e in errors[:2]:
+            ctx.violation("entry-point-called-from-several-threads-differs-from-the-call-alone", {"kind": "threads"}, e)
+        if errors:
+            return
+
+
 def run(spec, ctx):
     import jsonpath
 
     if spec.get("kind") == "scale":
         run_scale(ctx)
+        return
+    if spec.get("kind") == "threads":
+        run_threads(ctx, spec["rounds"])
         return
     r = ctx.rng
     env2 = jsonpath.JSONPathEnvironment()
@@ -265,6 +319,9 @@ def finalize(m, tier):
 
 
 def replay(case, ctx, tag="replay"):
+    if case.get("kind") == "threads":
+        run_threads(ctx, 25)
+        return
     if case.get("in_place"):
         from rt.jp_oracle import check_after_incomplete_passes
 
